@@ -5,6 +5,7 @@
 use serde_json::{json, Value};
 use std::time::{Duration, Instant};
 
+mod eval;
 mod rng;
 mod t_time_locks;
 mod t_int_encoders;
@@ -60,6 +61,14 @@ fn main() {
         "replay" => {
             let v: Value = serde_json::from_str(&args[2]).expect("json");
             let unit = v["unit"].as_str().unwrap_or("");
+            if unit == "eval" {
+                let (bad, msg) = match v["function"].as_str().unwrap_or("") {
+                    "cost_table" => eval::replay_cost(&v["input"]),
+                    _ => (false, "unknown eval replay".to_string()),
+                };
+                println!("{} {msg}", if bad { "DISAGREE" } else { "AGREE" });
+                std::process::exit(if bad { 1 } else { 0 });
+            }
             match target(unit) {
                 Some(t) => match t.replay(&v["input"]) {
                     Ok((true, msg)) => {
@@ -80,10 +89,16 @@ fn main() {
                 }
             }
         }
-        "eval" => {
-            eprintln!("no eval tasks yet: {}", args[2]);
-            std::process::exit(2);
-        }
+        "eval" => match eval::run(&args[2]) {
+            Some(r) => {
+                println!("RESULT {}", json!({"obligations": r.obligations, "discharged": r.discharged,
+                    "failures": r.failures, "samples": r.samples, "exhaustive": r.exhaustive}));
+            }
+            None => {
+                eprintln!("no eval task {}", args[2]);
+                std::process::exit(2);
+            }
+        },
         _ => std::process::exit(2),
     }
 }
